@@ -414,6 +414,47 @@ def benign_sweep(res: Result, only: str | None = None) -> int:
                             res.add(key, f"C09:no-cause:{bad} (listener {lst}; callbacks seen {seen})", d)
                     finally:
                         w.close()
+    # request sizes: a request-response call whose request is small, large, at and beyond what one Noise frame can carry (65515 payload
+    # bytes); beyond it the device cannot make sense of the frame and drops the link.  Result or classified error, never a raw one.
+    from aioesphomeapi.core import APIConnectionError as _ACE
+
+    for noise in (False, True):
+        for size in (100, 16384, 65000, 65515, 65516, 65536, 70000, 200000):
+            key = f"benign:{'noise' if noise else 'plain'}:request-size:{size}"
+            if only is not None and key != only:
+                continue
+            w = ConnWorld(noise=noise, keepalive=1e6)
+            try:
+                if noise:
+                    w.connect_fully_split()
+                else:
+                    w.connect_fully()
+                conn = w.conn
+                big = mk("BluetoothGATTWriteRequest", address=1, handle=2, response=True)
+                big.data = bytes(size - len(big.SerializeToString()) - 4) if size > 64 else b""
+                w.spawn("req", lambda: conn.send_message_await_response(big, pb.BluetoothGATTWriteResponse, 10.0))
+                w.drain()
+                fits = not noise or len(big.SerializeToString()) <= 65515
+                if w.sock is not None and not w.sock.closed:
+                    if fits:
+                        w.io_chunk(w.sock, w.dframe(mk("BluetoothGATTWriteResponse", address=1, handle=2)))
+                    else:
+                        w.io_eof(w.sock)
+                    w.drain()
+                w.run_timers(w.loop.time() + 30.0)
+                n += 1
+                r = w.results.get("req")
+                d = {"key": key}
+                if r is None:
+                    res.add(key, f"C09:hang:a request of {size} bytes never ended", d)
+                elif r[0] == "exc" and not isinstance(r[1], _ACE):
+                    res.add(key, f"C09:unclassified:a request of {size} bytes raised {type(r[1]).__name__}: {str(r[1])[:80]}", d)
+                elif fits and r[0] != "ok":
+                    res.add(key, f"C09:no-cause:a request of {size} bytes ended {w.outcome('req')} although the device answered and nothing failed", d)
+                elif r[0] == "cancelled":
+                    res.add(key, f"C09:cancelled:a request of {size} bytes ended cancelled", d)
+            finally:
+                w.close()
     return n
 
 
